@@ -290,8 +290,10 @@ def smooth_forward_case(ctx, combo, idx, lay, bmkind, traces):
 
 
 # ------------------------------------------------------------------------------------------------
-def shrink_case(ctx, combo, idx):
-    """(iv) exploration: e(dt), e(dt/4), e(dt/16) on one fixed fine Brownian path."""
+def shrink_case(ctx, combo, idx, logqp=False):
+    """(iv) exploration: e(dt), e(dt/4), e(dt/16) on one fixed fine Brownian path.
+    logqp=True: the same arguments plus logqp=True (prior drift h = -y): the solution values and the KL increments must be
+    those of sdeint bit for bit, and the loss also depends on the KL increments."""
     ty, noise, method, am = combo[:4]
     b, d = 256, 2
     m = 1 if noise == "scalar" else 2
@@ -304,20 +306,33 @@ def shrink_case(ctx, combo, idx):
     es = []
     for hden in (8, 32, 128):
         sde = H.SmoothSDE(noise, d, m, seed=ctx.seed * 3 + idx, sde_type=ty, gscale=0.7)
+        if logqp:
+            sde.h = lambda t, y: -y
         params = list(sde.parameters())
-        outs = []
+        outs, vals = [], []
         for fn, extra in ((torchsde.sdeint_adjoint, dict(adjoint_method=am)), (torchsde.sdeint, {})):
             y0 = y0v.clone().requires_grad_()
             bm = H.GridBrownian(0.0, 1.0 / fine, incs, levy=_levy_for(method))
             with H.quiet():
-                ys = fn(sde, y0, ts, bm=bm, method=method, dt=1.0 / hden, **extra)
-            g = H.grads_of((ys * w).sum() / b, [y0] + params)
+                if logqp:
+                    ys, lq = fn(sde, y0, ts, bm=bm, method=method, dt=1.0 / hden, logqp=True, **extra)
+                    loss = (ys * w).sum() / b + lq.sum() / b
+                    vals.append((ys.detach(), lq.detach()))
+                else:
+                    ys = fn(sde, y0, ts, bm=bm, method=method, dt=1.0 / hden, **extra)
+                    loss = (ys * w).sum() / b
+            g = H.grads_of(loss, [y0] + params)
             outs.append(torch.cat([x.reshape(-1) for x in g]))
+        if logqp and not (torch.equal(vals[0][0], vals[1][0]) and torch.equal(vals[0][1], vals[1][1])):
+            H.violation_once(ctx, dict(part="logqp", sde_type=ty, noise=noise, method=method, clause="forward_equal"),
+                             f"sdeint_adjoint(logqp=True) does not return the values of sdeint(logqp=True): max diff ys "
+                             f"{float((vals[0][0] - vals[1][0]).abs().max()):.3e}, logqp "
+                             f"{float((vals[0][1] - vals[1][1]).abs().max()):.3e} (dt=1/{hden})")
         es.append(float((outs[0] - outs[1]).pow(2).mean().sqrt()))
-    key = dict(part="shrink", sde_type=ty, noise=noise, method=method, adjoint_method=am)
+    key = dict(part="shrink" if not logqp else "shrink_logqp", sde_type=ty, noise=noise, method=method, adjoint_method=am)
     monotone = es[2] < es[1] < es[0]
     halves = es[2] <= es[0] / 2
-    ctx.case(("shrink", ty, noise, method, am), sample=dict(key, e=es))
+    ctx.case(("shrink", ty, noise, method, am, logqp), sample=dict(key, e=es))
     if es[0] <= 1e-12:            # the reversible pair: already at rounding level, nothing to shrink
         verdict = "rounding_level"
     elif monotone and halves:
@@ -417,6 +432,22 @@ def run(ctx):
             H.violation_once(ctx, dict(part="shrink", sde_type=combo[0], noise=combo[1], method=combo[2],
                                        adjoint_method=combo[3], clause="accepted_runs"),
                              f"accepted configuration raised {type(e).__name__}: {str(e)[:200]}")
+    # the same with logqp=True (KL increments in the loss; prior drift h = -y): additive noise only - the KL integrand
+    # needs g^+ (f - h), which is well conditioned for the state-independent diffusion of the harness SDE but not for its
+    # state-dependent ones (an ill-conditioned pseudo-inverse says nothing about the adjoint)
+    seen_lq = set()
+    for i, combo in enumerate(pool):
+        if combo[1] != "additive" or (combo[0], combo[2]) in seen_lq or (ctx.tier == "quick" and len(seen_lq) >= 4):
+            continue
+        seen_lq.add((combo[0], combo[2]))
+        try:
+            r = shrink_case(ctx, combo, 1000 + i, logqp=True)
+            r["logqp"] = True
+            shr.append(r)
+        except Exception as e:
+            H.violation_once(ctx, dict(part="shrink_logqp", sde_type=combo[0], noise=combo[1], method=combo[2],
+                                       adjoint_method=combo[3], clause="accepted_runs"),
+                             f"accepted configuration with logqp=True raised {type(e).__name__}: {str(e)[:200]}")
     ctx.notes["dt_to_zero_exploration"] = dict(
         what="e(dt) = RMS over all gradient entries (y0 per path, parameters) of adjoint - backprop, 256 paths, one fixed "
              "Brownian path, dt = 1/8, 1/32, 1/128; exploration, the limit itself is not decided",
